@@ -55,6 +55,13 @@ def C01(c):
     c.exhaustive_scopes.append(f"complete greedy: all multisets of 1..{c.n(3,4)} values from 0..3 x k in 1..3 x 16 switch combinations x 5 objectives")
     c.corr("random", C.random_part_cases(rng, algs, c.n(60, 600)), combos, judge=judge)
     c.corr("random-cbldm", C.random_part_cases(rng, ["cbldm"], c.n(100, 1000)), combos, judge=judge)
+    # the recursive searches with 4-5 bins on inputs where KK's first answer is usually not perfect (nested recursion levels)
+    hard = []
+    for _ in range(c.n(120, 1200)):
+        a = rng.choice(["snp", "snp", "rnp", "ckk"])
+        n = rng.randint(6, 7 if a == "ckk" else 9)
+        hard.append({"alg": a, "vals": [rng.randint(1, 30) for _ in range(n)], "p": {"k": rng.choice([4, 4, 5]) if n <= 7 or a != "snp" else 4}})
+    c.corr("recursive-4-5-bins", hard, combos_of(["list", "dict_str"], [PT, "Sums"]), judge=judge)
     # rnp with 6 or more bins (known finding KF1 lives here)
     big = [{"alg": "rnp", "vals": gen.rand_vals(rng, rng.randint(6, 9), "small"), "p": {"k": rng.choice([6, 7])}} for _ in range(c.n(6, 40))]
     c.corr("rnp-6plus", big, combos_of(["list"], [PT]), judge=judge)
@@ -176,7 +183,62 @@ def C04(c):
     ex = [e for e in C.exhaustive_pack_cases(["bin_completion"], c.n([6, 7], [6, 7, 12]), c.n(6, 7), all_orders_upto=0) if e["vals"]]
     c.corr("exhaustive", ex, combos_of(["list"], [PT]), judge=judge)
     c.exhaustive_scopes.append(f"all multisets of 1..{c.n(6,7)} values from 1..B, B in {c.n([6,7],[6,7,12])}")
-    rnd = [e for e in C.random_pack_cases(rng, ["bin_completion"], c.n(500, 8000), nmax=c.n(11, 13)) ]
+    # the helpers of the search, called directly (their deviations show far more often than end-to-end)
+    from prtpy.packing import bin_completion_utils as bcu
+    tri, helper_cases = [], []
+    for _ in range(c.n(1500, 15000)):
+        B = rng.choice([10, 12, 15, 20, 30, 35])
+        pool = [rng.randint(1, B) for _ in range(rng.randint(1, 4))]
+        n = rng.randint(0, 9)
+        items = sorted((rng.choice(pool) if rng.random() < 0.75 else rng.randint(1, B) for _ in range(n)), reverse=True)
+        x = rng.randint(max(items + [1]), B) if items and max(items) <= B else rng.randint(1, B)
+        def thunk(x=x, items=items, B=B):
+            return [[num(v) for v in comp] for comp in bcu.find_bin_completions(x, list(items), B)]
+        tri.append((f"completions x={x} items={f_nats(items)} B={B}", thunk, {"alg": "find_bin_completions", "vals": [x] + items, "B": B, "x": x}))
+        helper_cases.append((x, items, B))
+    for _ in range(c.n(600, 6000)):
+        l1 = sorted((rng.randint(1, 9) for _ in range(rng.randint(0, 3))), reverse=True)
+        l2 = sorted((rng.randint(1, 9) for _ in range(rng.randint(0, 4))), reverse=True)
+        def thunk(l1=l1, l2=l2):
+            return bool(bcu.is_dominant(list(l1), list(l2)))
+        tri.append((f"is_dominant l1={f_nats(l1)} l2={f_nats(l2)}", thunk, {"alg": "is_dominant", "vals": l1 + l2, "l1": l1, "l2": l2}))
+    def rl(maxlen=4, hi=9, dup=0.5):
+        pool = [rng.randint(1, hi) for _ in range(rng.randint(1, 3))]
+        return sorted((rng.choice(pool) if rng.random() < dup else rng.randint(1, hi) for _ in range(rng.randint(0, maxlen))), reverse=True)
+
+    def fl(ls):
+        return "|".join(f_nats(l) for l in ls) if ls else "~"
+    for _ in range(c.n(800, 8000)):
+        ls = [rl() for _ in range(rng.randint(0, 6))]
+        if rng.random() < 0.5 and ls:
+            ls.append(list(rng.choice(ls)))
+        def t_u(ls=ls):
+            return [[num(v) for v in l] for l in bcu.unique_list([list(l) for l in ls])]
+        tri.append((f"uniq lists={fl(ls)}", t_u, {"alg": "unique_list", "vals": [v for l in ls for v in l], "lists": ls}))
+        ne = [l for l in ls if l]
+        def t_d(ne=ne):
+            return [[num(v) for v in l] for l in bcu.check_for_dominance([list(l) for l in ne])]
+        tri.append((f"check_dom lists={fl(ne)}", t_d, {"alg": "check_for_dominance", "vals": [v for l in ne for v in l], "lists": ne}))
+        orig, rem = rl(8), rl(4)
+        def t_l(orig=orig, rem=rem):
+            return [num(v) for v in bcu.list_without_items(list(orig), list(rem))]
+        tri.append((f"lwi orig={f_nats(orig)} rem={f_nats(rem)}", t_l, {"alg": "list_without_items", "vals": orig + rem}))
+        B = rng.choice([10, 20, 30]); its = rl(8, B); cc = rng.randint(0, B); y = rng.randint(0, B // 2)
+        def t_p(cc=cc, y=y, its=its, B=B):
+            return [[num(v) for v in l] for l in bcu.find_undominated_pairs(cc, y, list(its), B)]
+        tri.append((f"und_pairs c={cc} y={y} items={f_nats(its)} B={B}", t_p, {"alg": "find_undominated_pairs", "vals": its, "c": cc, "y": y, "B": B}))
+        def t_b(its=its, B=B):
+            return num(bcu.lower_bound(B, list(its)))
+        tri.append((f"bc_lower_bound B={B} items={f_nats(its)}", t_b, {"alg": "lower_bound", "vals": its, "B": B}))
+    before = len(c.disagreements)
+    c.direct("search-helpers", tri, nontrivial=lambda label, ans: len(label["vals"]) >= 3)
+    # failing-input search around every helper disagreement: the end-to-end call on the sub-problem it belongs to
+    extra = []
+    for d in c.disagreements[before:]:
+        lab = d["case"]["p"]
+        if lab.get("alg") == "find_bin_completions":
+            extra.append({"alg": "bin_completion", "vals": lab["vals"], "p": {"B": lab["B"]}})
+    rnd = [e for e in C.random_pack_cases(rng, ["bin_completion"], c.n(800, 8000), nmax=c.n(11, 13)) ] + extra[:200]
     for e in rnd:
         e["vals"] = [v for v in e["vals"] if v >= 1] or [1]
     c.corr("random", rnd, combos_of(["list"], ots), judge=judge)
@@ -194,6 +256,11 @@ def sums_view(ot, sums):
 def all_algs_cases(c, rng, per_alg, with_exact=True):
     cs = C.random_part_cases(rng, C.HEURISTIC_PART + (["cg", "ckk", "snp", "rnp", "dp", "cbldm", "ilp"] if with_exact else []), per_alg, objs=C.OBJS5)
     cs = [e for e in cs if not (e["alg"] == "rnp" and e["p"]["k"] >= 6)]
+    if with_exact:      # the recursive searches on inputs where KK's first answer is usually not perfect (nested levels, prior bins kept across iterations)
+        for _ in range(max(10, per_alg)):
+            a = rng.choice(["snp", "rnp"])
+            n = rng.randint(5, 9)
+            cs.append({"alg": a, "vals": [rng.randint(1, 60) for _ in range(n)], "p": {"k": rng.choice([3, 4, 4, 5]) if n <= 7 else rng.choice([3, 4])}})
     cs += C.random_pack_cases(rng, C.PACKERS + ["bin_completion"], per_alg)
     cs += C.random_cover_cases(rng, C.COVERS, per_alg)
     return cs
@@ -718,6 +785,34 @@ def C13(c):
         triples.append((f"allcomb_contents s1={f_nats(s1)} s2={f_nats(s2)} l1={fb(l1)} l2={fb(l2)}", thunk,
                         {"alg": "BinnerKeepingContents.all_combinations", "vals": s1 + s2, "l1": l1, "l2": l2, "values": {str(k_): v for k_, v in val_of.items()}}))
     c.direct("allcomb-contents", triples, nontrivial=lambda label, ans: len(label["l1"]) >= 2)
+    # plain values as items (list input: name = value), with repeats: equal items are indistinguishable, multiplicities matter
+    tv = []
+    for _ in range(c.n(400, 4000)):
+        k = rng.randint(2, c.n(4, 5))
+        pool = [rng.randint(1, 6) for _ in range(rng.randint(1, 3))]
+        l1 = [[rng.choice(pool) for _ in range(rng.randint(0, 3))] for _ in range(k)]
+        l2 = [[rng.choice(pool) for _ in range(rng.randint(0, 3))] for _ in range(k)]
+        l1.sort(key=sum); l2.sort(key=sum)
+        s1 = [sum(l) for l in l1]; s2 = [sum(l) for l in l2]
+        def fbv(ls):
+            return "|".join("[" + ",".join(f"{x}:{x}" for x in l) + "]" for l in ls)
+        def thunk(l1=l1, l2=l2, s1=s1, s2=s2):
+            bk = BinnerKeepingContents()
+            b1 = (np.array(s1, dtype=float), [list(l) for l in l1]); b2 = (np.array(s2, dtype=float), [list(l) for l in l2])
+            return [{"sums": [num(x) for x in r[0]], "bins": [[num(x) for x in l] for l in r[1]]} for r in bk.all_combinations(b1, b2)]
+        tv.append((f"allcomb_contents s1={f_nats(s1)} s2={f_nats(s2)} l1={fbv(l1)} l2={fbv(l2)}", thunk,
+                   {"alg": "BinnerKeepingContents.all_combinations", "vals": s1 + s2, "l1": l1, "l2": l2}))
+    c.direct("allcomb-contents-plain-values", tv, nontrivial=lambda label, ans: len(label["l1"]) >= 2)
+    for line, thunk, label in tv:
+        l1, l2 = label["l1"], label["l2"]
+        k = len(l1)
+        got = thunk()
+        canon = [tuple(tuple(b) for b in r["bins"]) for r in got]
+        want = {tuple(sorted(tuple(sorted(l1[p[i]] + l2[i])) for i in range(k))) for p in itertools.permutations(range(k))}
+        # distinctness is judged on the manager's own canonical form (bins ordered by sum, contents sorted): DESIGN section 10
+        ok = len(canon) == len(set(canon)) and {tuple(sorted(t)) for t in canon} == want
+        c.check_direct("BinnerKeepingContents.all_combinations", label, "combinations", ok, got,
+                       "every distinct pairing of the bins (as multisets of values per bin) exactly once")
     for line, thunk, label in triples:
         l1, l2 = label["l1"], label["l2"]
         k = len(l1)
@@ -795,6 +890,12 @@ def C11(c):
         return J.judge_partition(case, fmt, ot, got, names, ans, allow_none=case["p"].get("cut") is not None)
 
     c.corr("cg-every-cut", cut_cases, combos_of(["list"], [PT]), judge=judge)
+    # the same for named items (names unrelated to the values): every cut of a sample of the runs
+    named = [ce for grp in rng.sample(groups, min(len(groups), c.n(60, 400))) for ce in grp if len(grp[0]["vals"]) >= 3]
+    saved = dict(results)
+    c.corr("cg-every-cut-named", named, combos_of(["dict_str"], [PT]), judge=judge)
+    named_results = {k_: v for k_, v in results.items()}
+    results.clear(); results.update(saved)
     greedy_sums = {}
     for grp in groups:
         o = grp[0]["p"]["obj"]
@@ -822,6 +923,22 @@ def C11(c):
                 kind = "first-solution-not-lpt" + (":same-objective-value" if same_value else "")
                 c.check_direct("cg", label, kind, sorted(got["sums"]) == lpt, got["sums"],
                                f"the first solution has the greedy (LPT) sums {lpt}")
+    # named runs: the first solution has the LPT sums too (it is the same search on the same values)
+    seen_groups = set()
+    for grp in groups:
+        if not any(id(ce) in named_results for ce in grp):
+            continue
+        o = grp[0]["p"]["obj"]
+        for ce in grp:
+            got = named_results.get(id(ce))
+            if got is None or J._is_err(got) or J._is_none(got):
+                continue
+            key = (tuple(ce["vals"]), ce["p"]["k"])
+            lpt = [num(x) for x in greedy_sums.get(key) or sorted(prtpy.partition(algorithm=prt.greedy, numbins=ce["p"]["k"], items=list(ce["vals"]), outputtype=out.Sums))]
+            same_value = obj_value(o, got["sums"]) == obj_value(o, lpt)
+            c.check_direct("cg", dict(ce["p"], vals=ce["vals"], alg="cg", fmt="dict_str"), "first-solution-not-lpt" + (":same-objective-value" if same_value else ""),
+                           sorted(got["sums"]) == sorted(lpt), got["sums"], f"the first solution (named input) has the greedy (LPT) sums {lpt}")
+            break
     # no limit => optimal (verified oracle)
     jo = J.judge_optimal(lambda case: case["p"]["obj"])
     c.corr("cg-no-limit-optimal", [g[-1] for g in groups], combos_of(["list"], [PT]), judge=jo)
@@ -832,9 +949,10 @@ def C11(c):
         for d in (1, 2, None):
             cb.append({"alg": "cbldm", "vals": list(ms), "p": {"k": 2, "d": d, "cut": None}})
     c.exhaustive_scopes.append(f"cbldm: all multisets of 1..{c.n(5,6)} values from 0..3 x d in (1,2,unbounded) x EVERY cut 1..(number of calls of part)+1")
-    for _ in range(c.n(40, 400)):
-        n = rng.randint(1, c.n(9, 11))
-        cb.append({"alg": "cbldm", "vals": gen.rand_vals(rng, n), "p": {"k": 2, "d": rng.choice([1, 2, 3, None, None]), "cut": None}})
+    for _ in range(c.n(150, 800)):
+        n = rng.randint(1, c.n(8, 11))
+        cb.append({"alg": "cbldm", "vals": gen.rand_vals(rng, n, rng.choice(["tiny", "small", "small", "dominant", "dominant", "zeros", "mid"])),
+                   "p": {"k": 2, "d": rng.choice([1, 1, 2, 3, None]), "cut": None}})
     cb_cases, cb_groups = [], []
     for e in cb:
         L = run_length("cbldm", e)
@@ -851,9 +969,18 @@ def C11(c):
         d = case["p"].get("d")
         if not J._is_none(got) and d is not None and len(got["bins"]) == 2 and abs(len(got["bins"][0]) - len(got["bins"][1])) > d:
             res.append((None, lambda a: ("cardinality", f"bin cardinalities differ by more than {d}")))
+        if case["p"].get("cut") is None and not J._is_none(got) and len(got["sums"]) == 2:       # no limit: optimal under the bound
+            diff = abs(got["sums"][0] - got["sums"][1])
+            res.append((f"opt_balanced d={'inf' if d is None else d} vals={f_nats(case['vals'])}",
+                        lambda a: None if a == diff else ("suboptimal", f"no time limit: sum difference {diff}, the optimum under the bound is {a}")))
         return res
 
     c.corr("cbldm-every-cut", cb_cases, combos_of(["list"], [PT]), judge=judge_cb)
+    # with no limit the result is optimal under the bound: a wider scope without the cuts
+    nl = [{"alg": "cbldm", "vals": list(ms), "p": {"k": 2, "d": d, "cut": None}}
+          for ms in gen.multisets(range(1, c.n(8, 9)), c.n(5, 6), min_len=3) for d in (1, 2)]
+    c.corr("cbldm-no-limit-optimal", nl, combos_of(["list"], [PT]), judge=judge_cb)
+    c.exhaustive_scopes.append(f"cbldm without limit: all multisets of 3..{c.n(5,6)} values from 1..{c.n(7,8)} x d in (1,2), certified against the verified balanced oracle")
     for grp in cb_groups:
         prev = None
         for ce in grp:
@@ -1196,6 +1323,22 @@ class MipCapture:
         self.preprocess_off = False
         self.force_status = None
 
+    PARAMS = ("max_mip_gap_abs", "max_mip_gap", "integer_tol", "infeas_tol", "opt_tol", "max_nodes", "max_solutions", "cutoff", "emphasis")
+
+    def params_of(self, model):
+        res = {}
+        for nm in self.PARAMS:
+            try:
+                res[nm] = str(getattr(model, nm))
+            except Exception:      # noqa
+                res[nm] = "?"
+        return res
+
+    def default_params(self):
+        if not hasattr(self, "_defaults"):
+            self._defaults = self.params_of(self.mip.Model("defaults"))
+        return self._defaults
+
     def __enter__(self):
         cap = self
 
@@ -1206,7 +1349,8 @@ class MipCapture:
                 rows.append(({v.idx: float(cf) for v, cf in e.expr.items() if cf != 0}, e.sense, -float(e.const)))
             ob = model.objective
             cap.last = {"rows": rows, "objective": {v.idx: float(cf) for v, cf in ob.expr.items() if cf != 0}, "obj_const": float(ob.const),
-                        "sense": model.sense, "nvars": len(model.vars), "integer": all(v.var_type == "I" for v in model.vars)}
+                        "sense": model.sense, "nvars": len(model.vars), "integer": all(v.var_type == "I" for v in model.vars),
+                        "params": cap.params_of(model)}
             if cap.preprocess_off:
                 model.preprocess = 0
             st = cap.orig(model, *a, **kw)
@@ -1273,14 +1417,14 @@ def C17(c):
 
     for sp in corpus("C17"):
         specs.append(mk(sp["k"], sp["vals"], sp.get("copies_arg"), sp.get("weights_arg"), sp["obj"], [tuple(x) for x in sp.get("cons", [])]))
-    for _ in range(c.n(260, 2500)):
+    for _ in range(c.n(400, 3000)):
         k = rng.choice([1, 2, 2, 3, 3, 4])
         n = rng.randint(1, 5 if k <= 3 else 4)
         vals = [rng.choice([rng.randint(0, 9), rng.randint(1, 30), rng.randint(1, 200)]) for _ in range(n)]
         r = rng.random()
         copies_arg = None if r < 0.45 else (rng.choice([1, 2, 2]) if r < 0.7 else [rng.choice([0, 1, 1, 2]) for _ in range(n)])
         r = rng.random()
-        weights_arg = None if r < 0.5 else ([rng.choice([1, 2, 3, 5])] * k if r < 0.65 else [rng.choice([1, 1, 2, 3, 4, 10]) for _ in range(k)])
+        weights_arg = None if r < 0.35 else ([rng.choice([2, 3, 5, 7])] * k if r < 0.55 else [rng.choice([1, 2, 3, 4, 5, 7, 10]) for _ in range(k)])
         o = rng.choice(C.OBJS5)
         cons = []
         if rng.random() < 0.4:
@@ -1324,6 +1468,10 @@ def C17(c):
                     wo = [float(_frac(x)) for x in rm["objective"]]
                     if any(not close(model["objective"].get(j, 0.0), wo[j]) for j in range(n * k)) or not close(model["obj_const"], 0.0):
                         okf = False
+                if model["params"] != cap.default_params():
+                    # the model assumes the solver is asked for a proven optimum: tolerances / limits must be the solver's defaults
+                    c.disagreements.append({"stream": "ilp-solver-parameters", "alg": "ilp", "case": {"vals": sp["vals"], "p": label}, "fmt": "dict_str", "outtype": PT,
+                                            "impl": model["params"], "model": cap.default_params(), "request": "solver parameters for ilp_rows " + line})
                 if not okf:
                     c.disagreements.append({"stream": "ilp-formulation", "alg": "ilp", "case": {"vals": sp["vals"], "p": label}, "fmt": "dict_str", "outtype": PT,
                                             "impl": {"rows": [[r_[0], r_[1], r_[2]] for r_ in model["rows"]], "objective": model["objective"]},
